@@ -895,7 +895,9 @@ spifconf_parse_line(FILE * fp, spif_charptr_t buff)
       case '\0':
           SPIFCONF_PARSE_RET();
       case '%':
-          if (!BEG_STRCASECMP(spiftool_get_pword(1, buff + 1), "include ")) {
+          if (!spiftool_get_pword(1, buff + 1)) {
+              /* Nothing follows the '%'; there is no directive to act on. */
+          } else if (!BEG_STRCASECMP(spiftool_get_pword(1, buff + 1), "include ")) {
               spif_charptr_t path;
               FILE *fp;
 
